@@ -279,6 +279,33 @@ impl<'a> io::Write for ScriptWrite<'a> {
             }
         }
     }
+    // a sink with a native vectored write: takes the scripted number of bytes across the slices
+    fn write_vectored(&mut self, bufs: &[io::IoSlice<'_>]) -> io::Result<usize> {
+        let step = if self.i < self.script.len() {
+            let s = self.script[self.i];
+            self.i += 1;
+            s
+        } else {
+            Step::Deliver(usize::MAX)
+        };
+        match step {
+            Step::Interrupted => Err(io::ErrorKind::Interrupted.into()),
+            Step::Deliver(k) => {
+                let total: usize = bufs.iter().map(|b| b.len()).sum();
+                let mut left = k.max(1).min(total);
+                let n = left;
+                for b in bufs {
+                    let t = left.min(b.len());
+                    self.out.extend_from_slice(&b[..t]);
+                    left -= t;
+                    if left == 0 {
+                        break;
+                    }
+                }
+                Ok(n)
+            }
+        }
+    }
     fn flush(&mut self) -> io::Result<()> {
         Ok(())
     }
